@@ -398,6 +398,9 @@ def _eq_samples():
         for time_axis in (False, True):
             yield dict(dst="identical", src_chunks=(7, 9), dst_chunks=None, dtype="int16", nodata=-1, time_axis=time_axis, masked=True, dst_nodata=100)
         yield dict(dst="identical", src_chunks=(23, 31), dst_chunks=None, dtype="uint8", nodata=0, time_axis=False, masked=True, dst_nodata=255)
+        # boolean rasters (warped through a 0/255 detour): the fill value asked for is True / False
+        for dn in (1, 0, None):
+            yield dict(dst="partial_overlap", src_chunks=(7, 9), dst_chunks=(5, 6), dtype="bool", nodata=None, time_axis=False, dst_nodata=dn)
         # several lazy reprojections of the SAME source evaluated in one graph must not interfere
         for vary in ("dst_nodata", "src_nodata", "resampling", "dst_geobox", "chunks"):
             yield dict(dst="partial_overlap", src_chunks=(7, 9), dst_chunks=(5, 6), dtype="int16", nodata=-1, time_axis=False, joint=vary)
@@ -421,7 +424,7 @@ def _eq_oracle(args, run=None):
     rng = np.random.default_rng(5)
     nt = 3 if args["time_axis"] else 0  # three time steps, chunked (2, 1): non-uniform chunks along the leading axis
     shape = ((nt,) if nt else ()) + tuple(src_g.shape)
-    pix = rng.integers(1, 200, size=shape).astype(dtype)
+    pix = rng.integers(1, 200, size=shape).astype(dtype) if dtype != "bool" else (rng.integers(0, 2, size=shape) > 0)
     dn = args.get("dst_nodata")
     if args.get("masked"):
         pix[..., :14, :18] = nodata  # the first 2 x 2 source chunks of a (7, 9) chunking
@@ -474,7 +477,7 @@ def _eq_oracle(args, run=None):
     gbt_src = GeoboxTiles(src_g, xx.chunk(ch).data.chunks[ydim : ydim + 2])
     gbt_dst = GeoboxTiles(dst_g, args["dst_chunks"] if args["dst_chunks"] is not None else (cy, cx))
     d2s = gbt_dst.grid_intersect(gbt_src)
-    fill = np.dtype(dtype).type(dn) if dn is not None else (np.dtype(dtype).type(nodata) if nodata is not None else (np.nan if np.dtype(dtype).kind == "f" else 0))
+    fill = (bool(dn) if dtype == "bool" else np.dtype(dtype).type(dn)) if dn is not None else (np.dtype(dtype).type(nodata) if nodata is not None else (np.nan if np.dtype(dtype).kind == "f" else 0))
     src_name = xx.chunk(ch).data.name
     for key in arr.__dask_keys__() if not args["time_axis"] else [k for row in arr.__dask_keys__() for k in row]:
         for k in key if isinstance(key, list) and isinstance(key[0], list) else [key]:
